@@ -1504,3 +1504,7 @@ V("C13-list-default-deepcopy", "C13", "copy.deepcopy instead of the package's co
   "            default = copy_basic_value(default)\n", "            import copy\n            default = copy.deepcopy(default)\n", expect="silent")
 VP("C11-R4D-mut-nested-list-dropped", "C11", "nested errors collected but the list handed up is dropped", "C11-R4D", CORE,
    "                errors.extend(\n                    self._validate_field(config, field, collect_errors=collect_errors)\n                )", "                self._validate_field(config, field, collect_errors=collect_errors)")
+V("C01-dict-validate-returns-raw-value", "C01", "DictProxy._validate hands back the raw value", "cincoconfig/fields/dict_field.py",
+  "        return (validated_key, validated_value)", "        return (validated_key, value)")
+V("C01-dict-validate-value-by-key-field", "C01", "DictProxy._validate validates the value with the key field", "cincoconfig/fields/dict_field.py",
+  "            validated_value = self.value_field.validate(self.cfg, value)", "            validated_value = self.key_field.validate(self.cfg, value)")
